@@ -30,7 +30,25 @@ def main():
         if os.path.isdir(evbak):
             shutil.rmtree("/verif/evidence", ignore_errors=True)
             shutil.copytree(evbak, "/verif/evidence")
+    fast = os.environ.get("SEED_FAST") == "1" and os.path.exists(f"/verif/seeded/{sid}/meta.json")
     try:
+        if fast:
+            # regression mode: the change was confirmed before; only re-run the checks against it
+            prev = json.load(open(f"/verif/seeded/{sid}/meta.json"))
+            for k in ("demo_passes_without_change", "suite_passes_with_change", "demo_fails_with_change", "demo_output_with_change"):
+                meta[k] = prev.get(k)
+            rc, out = sh(f"git apply {patch}")
+            assert rc == 0, "patch does not apply: " + out
+            rc, out = sh("go build ./...")
+            assert rc == 0, "patched tree does not build: " + out[-600:]
+            for cid in checks:
+                t0 = time.time()
+                rc, out = sh(f"./run.sh {cid} {tier}", cwd="/verif")
+                keys = re.findall(r"^\s+key=(\S+)", out, re.M)
+                meta["ran"].append({"check": cid, "tier": tier, "exit": rc, "violation_keys": keys[:12], "wall_s": round(time.time()-t0,1),
+                                    "violation_lines": len(re.findall(r"^VIOLATION ", out, re.M))})
+                print(f"{sid}: check {cid} {tier} -> exit {rc}, keys {keys[:4]}")
+            raise StopIteration
         # demo on the unchanged tree
         os.makedirs(os.path.dirname(os.path.join("/repo", place)) or "/repo", exist_ok=True)
         shutil.copy(demo, os.path.join("/repo", place))
@@ -56,6 +74,8 @@ def main():
             meta["ran"].append({"check": cid, "tier": tier, "exit": rc, "violation_keys": keys[:12], "wall_s": round(time.time()-t0,1),
                                 "violation_lines": len(re.findall(r"^VIOLATION ", out, re.M))})
             print(f"{sid}: check {cid} {tier} -> exit {rc}, keys {keys[:4]}")
+    except StopIteration:
+        pass
     finally:
         cleanup()
     meta["detected_by"] = [r["check"] for r in meta["ran"] if r["exit"] == 1]
